@@ -10,26 +10,32 @@ open WP WP.Gen
     its address; the idempotent dynamic initialiser leaves an existing array alone -/
 theorem init_tick_array_sound (dynamic idem : Bool) (pre : TarrPre) (start : Int) (ts : Nat) (o : TarrOut)
     (h : initializeTickArrayIx dynamic idem pre start ts = .ok o) :
+    pre ≠ .wrongAddress ∧
     (o = .existing → dynamic = true ∧ idem = true ∧ (pre = .fixed ∨ pre = .dynamic)) ∧
     (o ≠ .existing → pre = .nothing ∧ validStartTick start ts = true ∧ (o = .createdDynamic ↔ dynamic = true)) := by
   unfold initializeTickArrayIx at h
+  split at h
+  · cases h
+  rename_i hwa
+  refine ⟨hwa, ?_⟩
+  have hv : ∀ r : TarrOut, (if (!validStartTick start ts) = true then (Except.error "InvalidStartTick" : Except String TarrOut) else .ok r) = .ok o →
+      validStartTick start ts = true ∧ o = r := by
+    intro r hh
+    cases hx : validStartTick start ts with
+    | true => simp [hx] at hh; exact ⟨rfl, hh.symm⟩
+    | false => simp [hx] at hh
   cases dynamic with
   | false =>
     simp only [Bool.not_false, if_true] at h
     split at h
     · cases h
     · rename_i hp
-      split at h
-      · cases h
-      · rename_i hv
-        cases h
-        refine ⟨fun e => (by cases e), fun _ => ⟨by simpa using hp, ?_, by simp⟩⟩
-        cases hx : validStartTick start ts with
-        | true => rfl
-        | false => simp [hx] at hv
+      obtain ⟨v, rfl⟩ := hv _ h
+      exact ⟨fun e => (by cases e), fun _ => ⟨by simpa using hp, v, by simp⟩⟩
   | true =>
     simp only [Bool.not_true, Bool.false_eq_true, if_false] at h
     cases pre with
+    | wrongAddress => exact absurd rfl hwa
     | foreign => simp at h
     | fixed =>
       cases idem with
@@ -41,14 +47,8 @@ theorem init_tick_array_sound (dynamic idem : Bool) (pre : TarrPre) (start : Int
       | true => simp at h; cases h; exact ⟨fun _ => ⟨rfl, rfl, Or.inr rfl⟩, fun e => absurd rfl e⟩
     | nothing =>
       simp only [] at h
-      split at h
-      · cases h
-      · rename_i hv
-        cases h
-        refine ⟨fun e => (by cases e), fun _ => ⟨rfl, ?_, by simp⟩⟩
-        cases hx : validStartTick start ts with
-        | true => rfl
-        | false => simp [hx] at hv
+      obtain ⟨v, rfl⟩ := hv _ h
+      exact ⟨fun e => (by cases e), fun _ => ⟨rfl, v, by simp⟩⟩
 
 -- Non-vacuity (kernel evaluation)
 example :
@@ -58,7 +58,8 @@ example :
     (initializeTickArrayIx false false .nothing (-450560) 64).toOption = none ∧
     (initializeTickArrayIx true true .fixed 0 64).toOption = some .existing ∧
     (initializeTickArrayIx true false .fixed 0 64).toOption = none ∧
-    (initializeTickArrayIx true true .foreign 0 64).toOption = none := by
+    (initializeTickArrayIx true true .foreign 0 64).toOption = none ∧
+    (initializeTickArrayIx true true .wrongAddress 0 64).toOption = none := by
   decide +kernel
 
 end WP.SetupTick
